@@ -138,9 +138,11 @@ def build_node(rec, r, w, depth, maxdepth, uniq, counters, rd=None):
                 if not c.ok:
                     rec.count("child_create_refused")
                     return None, None
-                want = refenc.Encoder(read=w.read).envelope(child_desc)
-                if c.value != want:
-                    counters.add("child-differs-from-reference")   # reported when the child is the case itself
+                try:
+                    if c.value != refenc.Encoder(read=w.read).envelope(child_desc):
+                        counters.add("child-differs-from-reference")   # reported when the child is the case itself
+                except refenc.Unsupported:
+                    counters.add("child-unknown-to-reference")
                 cref = w.add(f"{uniq}{i}_child" + r.choice([".suit", "", ".bin"]), c.value, absolute=r.random() < 0.3)
                 dep_val, env_ref = cref, cref
             else:
